@@ -184,6 +184,7 @@ def to_model(data_file: typing.IO, _config = None, progress_callback=lambda _: N
 
   state = _State.COUNTER
   current_p = None
+  subtitle_text = ""
  
   for line_index, line in enumerate(_none_terminated(lines)):
 
